@@ -188,6 +188,9 @@ class Real:
         if op == "sstrict":
             st.strict = tok[1] == "T"
             return "ok"
+        if op == "slive":
+            st.live = tok[1] == "T"
+            return "ok"
         raise AssertionError(tok)
 
     # -- record stream
@@ -253,7 +256,8 @@ class Real:
         strict, param = a[0] == "T", a[1] == "T"
         self.owner = inferno.Module()
         self.st = None
-        ShapedTensor.create(self.owner, "st", self._val(a[2], param), constraints=cons_of(a[3]), strict=strict)
+        ShapedTensor.create(self.owner, "st", self._val(a[2], param), constraints=cons_of(a[3]), strict=strict,
+                            live=(len(a) > 4 and a[4] == "T"))
         self.st = self.owner.st
         return "ok"
 
@@ -268,7 +272,7 @@ class Real:
             vs = f"t:{shp_s(v.shape)}:{row_s(v)}"
         raw = getattr(self.owner, "_st_constraints")
         m = (f"val={vs} param={b(isinstance(v, nn.Parameter))} strict={b(st.strict)} cons={cons_s(raw)} "
-             f"valid={b(st.valid)} dim={st.dimensionality} ignored={b(st.ignored)}")
+             f"valid={b(st.valid)} dim={st.dimensionality} ignored={b(st.ignored)} live={b(st.live)}")
         s = f"val={vs} cons={cons_s(dict(sorted(st.constraints.items())))} valid={b(st.valid)}"
         return (m, s)
 
@@ -344,7 +348,8 @@ def shaped_case(rng):
         # (an UninitializedParameter keeps its class when `.data` is assigned, so a tensor assigned through
         #  ShapedTensor.value does not take; uninitialised *parameters* are outside the modelled domain)
         val = "uninit" if not param else "t:0:"
-    lines = [f"sbegin {b(strict)} {b(param)} {val} {cons_s(cons)}", "sdump"]
+    live = rng.random() < 0.35
+    lines = [f"sbegin {b(strict)} {b(param)} {val} {cons_s(cons)} {b(live)}", "sdump"]
     cur_rank = rank
     for _ in range(rng.randint(3, 9)):
         r = rng.random()
@@ -370,8 +375,10 @@ def shaped_case(rng):
                 lines.append("sassign none")
             else:
                 lines.append("sassign uninit" if not param else "sassign t:0:")
-        else:
+        elif r < 0.96:
             lines.append(f"sstrict {b(rng.random() < 0.5)}")
+        else:
+            lines.append(f"slive {b(rng.random() < 0.5)}")
         lines.append("sdump")
     return lines
 
